@@ -101,11 +101,28 @@ def _digit_loop_hook(st, env, sub):
         if name == V:
             continue
         if isinstance(e, ast.BinOp) and isinstance(e.op, ast.Add) and isinstance(e.right, ast.Name) and e.right.id == name \
-                and U(e.left) in (f"INT_TO_BASE_CHAR[int({V} % {b_t})]", f"INT_TO_BASE_CHAR[{V} % {b_t}]") \
+                and U(e.left) in {f"{t_}[int({V} % {b_t})]" for t_ in DIGIT_TABLES} | {f"{t_}[{V} % {b_t}]" for t_ in DIGIT_TABLES} \
                 and name in env and try_const(env[name], default=None) == "":
             upd[name] = ast.Call(func=ast.Name(id="__BASESTR__", ctx=ast.Load()), args=[entry, b_outer], keywords=[])
             return upd
     return None
+
+
+# spellings of the table of digit characters inside ``_format_base`` (its content is a separate obligation, C13.R4@digit-table)
+DIGIT_TABLES = {"INT_TO_BASE_CHAR"}
+
+
+def _find_digit_tables(f):
+    """What `_format_base` subscripts for a digit: an ALL_CAPS name or a literal run of characters put in place by the normaliser."""
+    out = {"INT_TO_BASE_CHAR"}
+    for n in ast.walk(f):
+        if isinstance(n, ast.Subscript) and not isinstance(n.slice, ast.Slice):
+            v = n.value
+            if isinstance(v, ast.Name) and v.id.isupper() and len(v.id) > 3:
+                out.add(v.id)
+            elif isinstance(v, ast.Constant) and isinstance(v.value, str) and len(v.value) >= 10:
+                out.add(U(v))
+    return out
 
 
 class _JoinRewrite(ast.NodeTransformer):
@@ -117,7 +134,7 @@ class _JoinRewrite(ast.NodeTransformer):
                 and isinstance(node.args[0], (ast.ListComp, ast.GeneratorExp)) and len(node.args[0].generators) == 1:
             comp = node.args[0]
             g = comp.generators[0]
-            if not g.ifs and isinstance(g.target, ast.Name) and U(comp.elt) == f"INT_TO_BASE_CHAR[{g.target.id}]":
+            if not g.ifs and isinstance(g.target, ast.Name) and U(comp.elt) in {f"{t_}[{g.target.id}]" for t_ in DIGIT_TABLES}:
                 it = g.iter
                 d = None
                 if isinstance(it, ast.Subscript) and U(it.slice) == "::-1" and isinstance(it.value, ast.Call) and call_name(it.value) == "__DIGITS_LSD__":
@@ -135,6 +152,8 @@ class _JoinRewrite(ast.NodeTransformer):
 def check_format_base(repo):
     f = repo.func("cell.py", "_format_base")
     v, nf = [a.arg for a in f.args.args[:2]]
+    DIGIT_TABLES.clear()
+    DIGIT_TABLES.update(_find_digit_tables(f))
     paths = Summarizer(loop_hook=_digit_loop_hook).summarize(f)
     lits = module_literals(repo)
     problems = []
